@@ -15,6 +15,9 @@
    (an entity can multiply nodes).  The `_partial` variants (character-data entities) keep the input-length hypothesis.
    Excluded by wf_doc, each with its reason in Spec/CstEnt.v: the CR LF proviso, D15 (the known finding), character
    references to TAB / LF / CR / '&' / '<' inside entity values (declaration-time vs use-time reading).
+   The same WITH NAMESPACES AND UNICODE (Spec/CstFullS4.v, on the CstFull frame): entity values are character data or
+   items with qualified names, namespace declarations and attributes; the meaning inlines first and resolves namespaces
+   afterwards, i.e. in the scope of the place of REFERENCE -- parse_render_sem_full_s4, hoist_insensitive_full_s4.
    With allow_dtd = false the same rendering gives Err DtdDetected (dtd_refused, markup entities included).
    Statements are pinned here (copied verbatim from the proof files by tools/pin_props.py);
    each is re-proved by `exact` and followed by Print Assumptions. *)
@@ -26,10 +29,42 @@ From RX.Model Require Import Base CharClass Stream Tokenizer Doc Builder Parse A
 From RX.Spec Require Import Text.
 From RX.Spec Require Cst CstText CstEnt.
 From RX.Proofs Require Import TextMachine HoistProofs RejectProofs CstMain CstTextSem CstEntSem CstEntDoc CstEntMain CstEntCMain.
+From RX.Spec Require CstFull CstFullS4.
+From RX.Proofs Require CstNsView CstFullS4Main.
 Open Scope N_scope.
 
-(* ---- Proofs/CstEntCMain.v ---- *)
+(* ---- Proofs/CstFullS4Main.v ---- *)
 Module G0.
+Import RX.Spec.CstFull. Import RX.Spec.CstFullS4. Import RX.Proofs.CstNsView. Import RX.Proofs.CstFullS4Main.
+Theorem C07_parse_render_sem_full_s4 :
+  forall (d : S4.doc) (opt : options),
+  S4.wf_doc d = true ->
+  allow_dtd opt = true ->                                         (* the options allow a DOCTYPE *)
+  N.of_nat (length (S4.sem d)) < nodes_limit opt ->               (* room for all nodes + the Root *)
+  N.of_nat (length (S4.sem d)) < u32_max ->                        (* of the MEANING: entities add nodes *)
+  N.of_nat (S4.nattrs d) < u32_max ->                              (* the attribute rows of the meaning *)
+  S4.distinct_decls_le d (N.to_nat 65535) ->                       (* at most 65535 distinct declared bindings *)
+  1 + N.of_nat (S4.ns_cost d) <= u32_max ->                        (* the namespace table fits *)
+  exists doc, parse (S4.render d) opt = Ok doc /\ view (S4.render d) doc = Some (S4.sem d).
+Proof. exact parse_render_sem_full_s4. Qed.
+Print Assumptions C07_parse_render_sem_full_s4.
+
+Theorem C07_hoist_insensitive_full_s4 :
+  forall (d1 d2 : S4.doc) opt,
+  S4.wf_doc d1 = true -> S4.wf_doc d2 = true -> allow_dtd opt = true -> S4.sem d1 = S4.sem d2 ->
+  N.of_nat (length (S4.sem d1)) < nodes_limit opt -> N.of_nat (length (S4.sem d1)) < u32_max ->
+  N.of_nat (S4.nattrs d1) < u32_max ->
+  S4.distinct_decls_le d1 (N.to_nat 65535) -> S4.distinct_decls_le d2 (N.to_nat 65535) ->
+  1 + N.of_nat (S4.ns_cost d1) <= u32_max -> 1 + N.of_nat (S4.ns_cost d2) <= u32_max ->
+  exists x1 x2, parse (S4.render d1) opt = Ok x1 /\ parse (S4.render d2) opt = Ok x2 /\
+                view (S4.render d1) x1 = view (S4.render d2) x2.
+Proof. exact hoist_insensitive_full_s4. Qed.
+Print Assumptions C07_hoist_insensitive_full_s4.
+
+End G0.
+
+(* ---- Proofs/CstEntCMain.v ---- *)
+Module G1.
 Module E := CstEnt.
 Theorem C07_parse_render_sem_ent :
   forall (c : E.doc) (opt : options),
@@ -64,7 +99,7 @@ Theorem C07_inlined_equiv :
 Proof. exact inlined_equiv. Qed.
 Print Assumptions C07_inlined_equiv.
 
-End G0.
+End G1.
 
 (* ---- Proofs/CstEntMain.v ---- *)
 Theorem C07_parse_render_sem_ent_partial :
@@ -246,7 +281,7 @@ Proof. exact attr_hoist_split_crlf. Qed.
 Print Assumptions C07_attr_hoist_split_crlf.
 
 (* ---- Proofs/RejectProofs.v ---- *)
-Module G3.
+Module G4.
 Local Notation token := Tokenizer.token.
 Theorem C07_find_entity_first :
   forall text es name e, find_entity text es name = Some e ->
@@ -267,4 +302,4 @@ Theorem C07_ok_refs_defined_first :
 Proof. exact ok_refs_defined_first. Qed.
 Print Assumptions C07_ok_refs_defined_first.
 
-End G3.
+End G4.
